@@ -181,6 +181,16 @@ def cmd_check(args) -> int:
         print(f"VIOLATION property={prop} replay={path}")
         print(f"  class={v['class']} detail={v.get('detail', '')[:300]}")
         exit_code = C.EXIT_VIOLATION
+    if os.environ.get("VERIF_LIST_VIOLATIONS") == "1":
+        # diagnosis aid: every violation of the run (not only the first of each class), digits folded
+        import collections
+        import re
+
+        tally = collections.Counter(
+            (e["violation"]["class"], e["violation"].get("finding_key"), re.sub(r"\d+", "N", e["violation"].get("detail", ""))[:220]) for e in violations
+        )
+        for (vc, fk, det), n in tally.most_common(60):
+            print(f"  LIST x{n} class={vc} key={fk} {det}")
     wall = time.monotonic() - t0
     if harness_errors:
         for h in harness_errors[:5]:
